@@ -493,31 +493,8 @@ func vfC17Do(t *testing.T, s *vfutil.Session, c *vfC17Case, tag int, src string)
 	}
 }
 
-// vfC17NextStart: syncer.updateCheckpoint's id ordering + the real UpdateCheckpoint run to completion,
-// then what RedisOutput.StartPoint reads: GetCheckpoint under the LOCAL key (the real
-// syncer.updateCheckpoint / SetRunId / StartPoint chain itself runs in package syncer, TestVerifC17Start).
 func vfC17NextStart(tg *vfdoubles.Target, local string, ids []string) string {
-	cli := VfConn(tg)
-	defer cli.Close()
-	ordered := ids
-	_, cpRunId, err := GetCheckpointHash(cli, ids)
-	if err != nil {
-		return "err"
-	}
-	if len(ids) > 1 && cpRunId == ids[1] && ids[1] != ids[0] {
-		ordered = []string{ids[1], ids[0]}
-	}
-	if err := UpdateCheckpoint(cli, local, ordered); err != nil {
-		return "err"
-	}
-	cpi, db, err := GetCheckpoint(cli, local, ids)
-	if err != nil {
-		return "err"
-	}
-	if db < 0 {
-		return "none"
-	}
-	return fmt.Sprintf("%d@%d", cpi.Offset, db)
+	return VfNextStart(tg, local, ids)
 }
 
 // gc never deletes, for an id a source still reports, in the database that
